@@ -99,6 +99,12 @@ def gen(rng, i, tier):
     rng.shuffle(perm)
     case["perm"] = perm
     case["solver"] = False
+    # sequential Phragmen: unequal initial loads (one per ballot as enumerated; a prefix is used on multiprofiles)
+    case["loads"] = None
+    if rule == "phragmen" and rng.random() < 0.3:
+        case["loads"] = [pb.qs(rng.choice([0, 0, 1, "1/2", "1/3", 2])) for _ in case["ballots"]]
+    # Equal Shares: binary_sat None (= approval profile) / forced on / forced off
+    case["binary"] = rng.choice([None, None, True, False]) if rule == "mes" else None
     return case
 
 
@@ -124,15 +130,21 @@ def impl(case):
         cls = getattr(E, case["sat"])
         satp = prof.as_sat_profile(cls)
 
+    nclasses = len(list(prof))
+    loads = None
+    if case.get("loads") is not None:
+        loads = [pb.num(v) for v in case["loads"][:nclasses]]
+
     def call(tb, resolute):
         if rule == "phragmen":
-            return sequential_phragmen(inst, prof, initial_budget_allocation=list(init), tie_breaking=tb,
+            return sequential_phragmen(inst, prof, initial_loads=None if loads is None else list(loads),
+                                       initial_budget_allocation=list(init), tie_breaking=tb,
                                        resoluteness=resolute)
         if rule == "greedy":
             return greedy_utilitarian_welfare(inst, prof, sat_class=cls, tie_breaking=tb, resoluteness=resolute,
                                               initial_budget_allocation=list(init))
         return method_of_equal_shares(inst, prof, sat_class=cls, tie_breaking=tb, resoluteness=resolute,
-                                      initial_budget_allocation=list(init))
+                                      initial_budget_allocation=list(init), binary_sat=case.get("binary"))
 
     tb0 = elections.tie_breaking(case["tb"], case["perm"])
     out["irrkey"] = _key_list(tb0, inst, prof, projs)
@@ -166,6 +178,7 @@ def impl(case):
     # ---- model inputs -------------------------------------------------------------------------
     if rule == "phragmen":
         out["classes"] = [[sorted(pb.ranks(b)), int(prof.multiplicity(b))] for b in prof]
+        out["loads"] = ["0/1"] * nclasses if loads is None else list(case["loads"][:nclasses])
     elif rule == "greedy":
         out["tab"] = [core.qj(satp.total_satisfaction([projs[j] for j in range(n) if (m >> j) & 1]))
                       for m in range(2 ** n)]
@@ -181,7 +194,7 @@ def impl(case):
 def _model(case, o):
     rule = case["rule"]
     if rule == "phragmen":
-        return "(MPhr %s)" % lst([pair(natl(s), core.nat(k)) for s, k in o["classes"]])
+        return "(MPhr %s %s)" % (lst([pair(natl(s), core.nat(k)) for s, k in o["classes"]]), core.qlist(o["loads"]))
     if rule == "greedy":
         if case["sat"] in FLOAT_SATS:
             return "MNone"
@@ -189,7 +202,7 @@ def _model(case, o):
     enum = case.get("order") or list(range(len(case["costs"])))
     return "(MMes %s %s %s)" % (
         lst([pair(core.qlist(u), core.nat(m)) for u, m in zip(o["utils"], o["mults"])]),
-        natl(enum), boolc(case["btype"] == "approval"))
+        natl(enum), boolc(case["btype"] == "approval" if case.get("binary") is None else case["binary"]))
 
 
 def coq_case(case, o):
@@ -232,7 +245,7 @@ def stats(cases, obs):
          "multiprofile": 0, "multiplicity_ge_2": 0, "nonempty_init": 0, "equal_costs": 0, "zero_cost": 0,
          "fractional_cost": 0, "non_additive_sat": 0, "float_valued_sat": 0, "resolute_runs": 0,
          "several_outcomes_by_rule": {}, "shipped_rule_outcomes_differ": 0, "model_compared": 0,
-         "outcomes_of_different_size": 0}
+         "outcomes_of_different_size": 0, "phragmen_initial_loads": 0, "mes_binary_sat": {}}
 
     def inc(h, k):
         h[str(k)] = h.get(str(k), 0) + 1
@@ -260,6 +273,9 @@ def stats(cases, obs):
         d["shipped_rule_outcomes_differ"] += len({tuple(w) for _, _, w in o["shipped"]}) > 1
         d["model_compared"] += not (c["rule"] == "greedy" and c["sat"] in FLOAT_SATS)
         d["outcomes_of_different_size"] += len({len(w) for w in o["irr"]}) > 1
+        d["phragmen_initial_loads"] += c.get("loads") is not None
+        if c["rule"] == "mes":
+            inc(d["mes_binary_sat"], c.get("binary"))
     return d
 
 
@@ -283,8 +299,10 @@ def shrink(case):
         for v in range(len(case["ballots"])):
             c = dict(case)
             c["ballots"] = case["ballots"][:v] + case["ballots"][v + 1:]
+            if case.get("loads"):
+                c["loads"] = case["loads"][:v] + case["loads"][v + 1:]
             yield c
-    for key, val in (("init", []), ("multi", False), ("tb", "lexico")):
+    for key, val in (("init", []), ("multi", False), ("tb", "lexico"), ("loads", None), ("binary", None)):
         if case.get(key) != val:
             c = dict(case)
             c[key] = val
